@@ -384,6 +384,7 @@ func TestC07(t *testing.T) {
 		idUse := map[string]int{}
 		reuse := false
 		startedAfterCancel := map[int]bool{}
+		startedTag := map[string]bool{}
 		for _, e := range r.Log {
 			f := strings.Fields(e)
 			switch f[0] {
@@ -450,6 +451,7 @@ func TestC07(t *testing.T) {
 			case "hstart":
 				u, _ := tagUID(f[1])
 				verdicts[u] = "run"
+				startedTag[f[1]] = true
 				_ = startedAfterCancel
 			case "hfinish":
 				u, _ := tagUID(f[1])
@@ -496,6 +498,26 @@ func TestC07(t *testing.T) {
 					match := true
 					for i := range calls {
 						match = match && calls[i].ID == string(entries[i].ID)
+					}
+					if !match {
+						continue
+					}
+					// two admitted messages can carry the same id list (a non-batch request that reuses an
+					// id while an earlier one is still running): the reply names the handler runs it
+					// reports (result / error text carry the tag), and a reply that names none belongs to a
+					// message none of whose members was started
+					if rt := tagsIn(string(rep)); len(rt) > 0 {
+						has := map[string]bool{}
+						for _, c := range calls {
+							has[c.Tag] = true
+						}
+						for _, tg := range rt {
+							match = match && has[tg]
+						}
+					} else {
+						for _, c := range calls {
+							match = match && !startedTag[c.Tag]
+						}
 					}
 					if !match {
 						continue
